@@ -9,6 +9,7 @@ import RbV.Model.QGramExact
 import RbV.Model.LcskFwd
 import RbV.Model.Lcskpp
 import RbV.Model.Sdpkpp
+import RbV.Model.KmerHash
 /-! Driver for property C19 (line protocol → verdict).
 
 ```
@@ -326,6 +327,9 @@ def verdictKmer (ks xh yh a b c out : String) : String :=
   | some k, some x, some y =>
     if k = 0 then "bad-op kmer-domain" else
     let exp := kmerMatches x y k
+    -- mirror models of the hash-map based matchers, proved equal to the reference (Thm.C19.find_kmer_matches_model_refines)
+    if Model.KmerHash.findKmerMatches x y k ≠ exp || Model.KmerHash.seq1Hashed (Model.KmerHash.hashKmers x k) y k ≠ exp
+        || Model.KmerHash.seq2Hashed x (Model.KmerHash.hashKmers y k) k ≠ exp then "bad-op kmer-model-vs-reference" else
     match (outField out "m").bind parsePairs, (outField out "h1").bind parsePairs, (outField out "h2").bind parsePairs with
     | some m, some h1, some h2 =>
       if m ≠ exp then "diff m " ++ showPairs exp else
